@@ -422,6 +422,23 @@ def judgeExtra2 (hNew hOld : HCtx) (op res : Array String) (dump : Option St) : 
           (List.zip el (el.drop 1)).all fun p => p.2 == s.ccw p.1 || p.2 == s.cw p.1) "C18"
         "voronoi-face-edges-wrong" (fun _ => "")
       (hNew, f1 ++ f2 ++ f3 ++ f4 ++ f5)
+  | "baryi" | "nnwi" =>
+    -- `interpolate` of a fixed linear function must be the weighted sum over `get_weights` for the
+    -- same position (both computed by the implementation; the weights themselves are judged by the
+    -- `bary` / `nnw` arms): `None` exactly when there are no weights, otherwise equal up to the
+    -- rounding of a short sum
+    if r0 != "iv" then (hNew, []) else
+    match parseCoord (res.getD 2 ""), parseNat (res.getD 3 "") with
+    | some (.fin sum), some n =>
+      let feat := fun (_ : Unit) => s!"n={n} {res.toList.take 3}"
+      if res.getD 1 "" == "none" then (hNew, chk (n == 0) "C19" "interpolate-none-but-weights" feat)
+      else match parseCoord (res.getD 1 "") with
+        | some (.fin v) =>
+          let k := if f32 then 12 else 30
+          (hNew, chk (n != 0) "C19" "interpolate-value-without-weights" feat ++
+                 chk (decide ((v - sum).natAbs * 2 ^ k ≤ sum.natAbs + scale1074.natAbs)) "C19" "interpolate-differs-from-weights" feat)
+        | _ => (hNew, [])   -- non-finite values: reported by the weights arms (K11)
+    | _, _ => (hNew, [])
   | "bary" | "nnw" =>
     -- non-finite weights (NaN / inf) are reported with a feature: is the point within rounding
     -- distance of a hull edge (signature of finding K11)?
